@@ -12,7 +12,7 @@ RULE = ('caption sets of 1-5 captions x 1-4 lines of 1-80 characters from the CE
         'first start at least its own transmission time. The output is checked structurally (header, line '
         'grammar, odd parity of every byte, PAC rows, <= 32 characters per row via the reference decoder, '
         'timecodes non-negative and non-decreasing, EOC within three frames of the start) and re-read with '
-        'SCCReader. Non-trivial: a line longer than 32, a word longer than 32, or just-feasible spacing.')
+        'SCCReader. Some first captions start shortly after a full minute of timecode. Non-trivial: a line longer than 32, a word longer than 32, or just-feasible spacing.')
 ANCHORS = ['pycaption.scc:SCCWriter.write', 'pycaption.scc:SCCWriter._layout_line',
            'pycaption.scc:SCCWriter._text_to_code', 'pycaption.scc:SCCWriter._print_character',
            'pycaption.scc:SCCWriter._maybe_align', 'pycaption.scc:SCCWriter._maybe_space',
